@@ -412,8 +412,16 @@ def run_check(prop, tier, module_name, seed=0):
     ev = {'property_id': prop, 'tier': tier, 'seed': seed, 'level': level, 'coverage': cov,
           'assumptions': meta.get('assumptions', []), 'wall_s': wall, 'violations': len(violations)}
     os.makedirs(os.path.join(HERE, 'evidence'), exist_ok=True)
-    with open(os.path.join(HERE, 'evidence', prop + ('.partial' if only else '') + '.json'), 'w') as f:
-        json.dump(ev, f, indent=1, default=repr)
+    # evidence/<id>.json describes the LAST run of the property (either tier); a copy per tier is kept next to it in
+    # evidence_by_tier/ so that a later quick run does not erase what the last thorough run covered.
+    # (VERIF_KEEP_MAIN_EVIDENCE=1: developer aid for a thorough sweep running beside a quick one - only the copy is written)
+    if only or not os.environ.get('VERIF_KEEP_MAIN_EVIDENCE'):
+        with open(os.path.join(HERE, 'evidence', prop + ('.partial' if only else '') + '.json'), 'w') as f:
+            json.dump(ev, f, indent=1, default=repr)
+    if not only:
+        os.makedirs(os.path.join(HERE, 'evidence_by_tier', tier), exist_ok=True)
+        with open(os.path.join(HERE, 'evidence_by_tier', tier, prop + '.json'), 'w') as f:
+            json.dump(ev, f, indent=1, default=repr)
 
     for k, pat, why in known_hits:
         print('KNOWN-FINDING: property=%s %s [%s]' % (prop, k['what'], why.split(' :: ')[0]))
